@@ -16,7 +16,7 @@ SOURCES = ["queued", "adopt:outside", "adopt:threading", "adopt:other", "service
            "execute:outside", "execute:other", "execute:threading", "execute:early",
            "adopt:own-loop", "adopt:in-section", "execute:foreign-trio",
            # plain callables that do a first part synchronously and return the awaitable
-           "execute:plain", "adopt:plain"]
+           "execute:plain", "adopt:plain", "queued:private-wait"]
 
 
 class Scenario:
@@ -109,6 +109,16 @@ class Scenario:
             if where == "plain":
                 desc["plain"] = True
                 where = "threading"
+            if where == "private-wait":
+                # suspended on an object nobody else refers to while a thread payload runs
+                # the garbage collector: its clean-up still belongs to the loop's thread
+                desc["steps"] = [("section", 1), ("wait-private",)]
+                desc["cleanup"] = ("sync", 1)
+                desc["_sections"] = 1
+                kit.submit({"id": "collector%d" % index, "flavour": "threading",
+                            "steps": [("sleep", 0.7), ("call", "collect"), ("block",)]})
+                env.shared["collect"] = lambda _env: __import__("gc").collect()
+                kind = "queued"
             if kind == "queued":
                 kit.submit(desc)
             elif kind == "service":
@@ -190,6 +200,13 @@ class Scenario:
                     sections[data["id"]] = sections.get(data["id"], 0) + 1
             if event in ("start", "section") and data["id"].startswith("blocked"):
                 thread_contexts.add((who, data["loop"], data["token"]))
+        threads = {who for _seq, _now, who, event, data in ex.log
+                   if event in ("start", "section", "cleanup-step", "cleanup-done", "beat")
+                   and isinstance(data, dict) and str(data.get("id", "")).startswith("m")}
+        if len(threads) > 1 and len(contexts) <= 1:
+            violations.append(("%s:payload-code-on-several-threads" % flavour,
+                               "%s payloads (their steps and clean-up) ran on threads %r"
+                               % (flavour, sorted(threads))))
         if len(contexts) > 1:
             violations.append(("%s:several-contexts" % flavour,
                                "%s payloads ran in different threads / loops: %r"
@@ -217,7 +234,7 @@ class Scenario:
         else:
             want = self.params.get("sections", 3)
             for desc in self.members:
-                if sections.get(desc["id"], 0) != want:
+                if sections.get(desc["id"], 0) != desc.get("_sections", want):
                     violations.append((
                         "%s:stalled" % flavour,
                         "%s completed %d of %d sections although only thread payloads block"
